@@ -15,6 +15,16 @@ Definition n2b (n : N) : byte :=
 
 Definition len {A} (s : list A) : N := N.of_nat (length s).
 
+(* the first k elements and the rest, when there are k; looks at no more than k elements (a length check
+   of the whole remaining input at every read would make the decoders quadratic) and never converts k to
+   a unary number (hostile declared lengths) *)
+Fixpoint split_at (k : N) (bs : bytes) : option (bytes * bytes) :=
+  if k =? 0 then Some ([], bs)
+  else match bs with
+       | [] => None
+       | b :: r => match split_at (N.pred k) r with Some (h, t) => Some (b :: h, t) | None => None end
+       end.
+
 (* big endian, k bytes *)
 Fixpoint be (k : nat) (n : N) : bytes :=
   match k with O => [] | S k' => be k' (n / 256) ++ [n2b n] end.
